@@ -154,6 +154,18 @@ def run(tier, seed):
     for i in range(60 if tier == "quick" else 900):
         cfg, real, meta = random_numeric_run(rng, tier)
         runs.append((cfg, real, meta))
+        if i % 4 == 0 and real["error"] is None:
+            # the same model object trained again: after reinitialize_parameters() (new parameter objects),
+            # or resumed as it is - every batch of the second fit is held to the same arithmetic
+            st = real["nn_state"]
+            how = "reinitialised" if i % 8 == 0 else "resumed"
+            if how == "reinitialised":
+                st.reinitialize_parameters()
+            st.stop_training = False
+            cfg2 = dict(cfg, startEp=cfg["epochs"] + 1, epochs=cfg["epochs"] + 2, cbs=[{"t": "rec"}])
+            lr2 = meta["lr0"] / 1e6
+            real2 = trainrun.real_run(cfg2, seed=rng.randrange(10 ** 6), k=meta["k"], lr=lr2, numeric_hook=True, nn_state=st)
+            runs.append((cfg2, real2, dict(meta, plan=[], second_fit=how)))
 
     def attach(lines_meta):
         pass
